@@ -5390,6 +5390,16 @@ func (s *BgpServer) watch(opts ...WatchOption) (*watcher, error) {
 				peer.fsm.lock.Unlock()
 				for _, rf := range peer.configuredRFlist() {
 					conf := peer.fsm.pConf.ReadOnly()
+					// routes retained from the previous session have not been
+					// received on this one: they are either announced again (and
+					// reported then) or removed at End-of-RIB, which no pre-policy
+					// event reports
+					received := make([]*table.Path, 0)
+					for _, p := range peer.adjRibIn.PathList([]bgp.Family{rf}, false) {
+						if !p.IsStale() {
+							received = append(received, p)
+						}
+					}
 					update := &watchEventUpdate{
 						PeerAS:       conf.State.PeerAs,
 						LocalAS:      conf.Config.LocalAs,
@@ -5400,7 +5410,7 @@ func (s *BgpServer) watch(opts ...WatchOption) (*watcher, error) {
 						Init:         true,
 						PostPolicy:   false,
 						Neighbor:     configNeighbor,
-						PathList:     peer.adjRibIn.PathList([]bgp.Family{rf}, false),
+						PathList:     received,
 					}
 					w.notify(update)
 
